@@ -7,6 +7,7 @@ the final macro table (H-platform).  Oracle: gcc -E markers, gcc -dM.
 """
 
 import os
+import re
 import traceback
 
 from cbimon import cbi, hooks
@@ -46,7 +47,8 @@ def required_cells(tier):
     cells += ["chain-in-dead-parent:plain", "chain-in-dead-parent:with-elif", "chain-in-dead-parent:with-else"]
     cells += ["depth:1", "depth:2", "depth:3+", "define-in-dead-group", "define-in-live-group", "undef-live",
               "elif-after-taken-branch", "directive-continuation", "empty-group", "class:enum", "class:random",
-              "class:stress", "table-compared", "via-cli", "non-utf8-bytes", "block-comment-in-directive", "two-platforms"]
+              "class:stress", "table-compared", "via-cli", "non-utf8-bytes", "block-comment-in-directive", "two-platforms",
+              "file-includes-itself", "null-directive", "benign-directive"]
     return cells
 
 
@@ -121,6 +123,33 @@ def norm_body(s):
     return "".join(s.split())
 
 
+BENIGN_DIRECTIVES = ["#", "  #", "# /* null directive */", "#pragma omp parallel for", "#pragma unroll(4)", "#line 100",
+                     "#ident \"v1\"", "# pragma region x", "#pragma STDC FP_CONTRACT ON"]
+
+
+def sprinkle(rng, body, p=0.2):
+    """Insert directives that select nothing (null directive, #pragma, #line, #ident) between the items of a program,
+    at every nesting level: a conforming preprocessor accepts them silently wherever they stand."""
+    out = []
+    for it in body:
+        if rng.random() < p:
+            out.append(["directive", rng.choice(BENIGN_DIRECTIVES)])
+        if it[0] == "chain":
+            out.append(["chain", [[kw, e, sprinkle(rng, sub, p)] for kw, e, sub in it[1]]])
+        else:
+            out.append(it)
+    return out
+
+
+def self_including(rng, ast):
+    """The translation unit includes itself once: the first pass defines SELFPASS and includes main.c in the middle of
+    its body, the nested pass takes the #else branch and then runs through the rest of the file."""
+    k = rng.randint(0, len(ast))
+    inner = [["define", "SELFPASS", None]] + ast[:k] + [["include", "q", "main.c"]] + [["code"]]
+    other = [["code"]] + ([["define", rng.choice(cprog.POOL), "1"]] if rng.random() < 0.5 else []) + [["code"]]
+    return [["chain", [["ifndef", "SELFPASS", inner], ["else", None, other]]]] + ast[k:]
+
+
 def render_case(case):
     import random as _r
     style = case.get("style")
@@ -156,6 +185,12 @@ def run_case(ctx, workdir, text, defines, r, cls, check_table=True, case=None):
         cells.add("non-utf8-bytes")
     if " /* note *\n" in text:
         cells.add("block-comment-in-directive")
+    if (case or {}).get("selfinc"):
+        cells.add("file-includes-itself")
+    if re.search(r"^\s*#\s*(/\*.*\*/)?\s*$", text, re.M):
+        cells.add("null-directive")
+    if re.search(r"^\s*#\s*(pragma|line|ident)", text, re.M):
+        cells.add("benign-directive")
     all_lines = set()
     for it in r.items:
         all_lines.update(it["lines"])
@@ -204,7 +239,7 @@ def run_case(ctx, workdir, text, defines, r, cls, check_table=True, case=None):
     last_assoc = max([i for i, e in enumerate(ev.events) if e[0] == "assoc" and e[1] == 0] or [0])
     got = [("define" if e[1] == "DefineNode" else "undef", e[3]) for e in ev.events[last_assoc:]
            if e[0] == "eval" and e[1] in ("DefineNode", "UndefNode")]
-    if want != got:
+    if want != got and not (case or {}).get("selfinc"):      # with a nested pass over the same file the order interleaves
         problems.append({"kind": "define-undef-trace", "expected": want[:30], "observed": got[:30]})
     # elif evaluated after a taken branch (advisory counter) -- consequences are what is judged
     # final macro table
@@ -312,9 +347,16 @@ def run_shard(ctx):
         srng_seed = rng.random()
         if not ctx.mine(i):
             continue
+        import random as _r
+        xr = _r.Random(srng_seed)
+        selfinc = i % 7 == 3
+        if i % 5 == 1:
+            ast = sprinkle(xr, ast)
+        if selfinc:
+            ast = self_including(xr, ast)
         style = {"cont": 0.15, "comment": 0.15, "indent": 0.1} if style_roll < 0.5 else None
         case = {"ast": ast, "style": style, "sseed": srng_seed, "cli": (i % 50 == ctx.shard), "latin1": (i % 9 == 4),
-                "defines2": defines_b if i % 2 == 0 else None}
+                "defines2": defines_b if i % 2 == 0 else None, "selfinc": selfinc}
         r = render_case(case)
         if r.n_chains == 0:
             continue
